@@ -252,7 +252,13 @@ def r3b_sibling_rows(report, repo):
         elif isinstance(x, ast.Name) and x.id == val:
           x.id = 'VAL'
       return norm(e)
-    a = shape(apps[0].args[0], 'coordinates', 'value')
+    # the names the row is built from: what is stored under what
+    st = [n for n in walk_no_nested(f.node) if isinstance(n, ast.Assign) and
+          isinstance(n.targets[0], ast.Subscript) and
+          dotted(n.targets[0].value) == 'self.value_dict']
+    kn = dotted(st[0].targets[0].slice) if len(st) == 1 else None
+    vn = dotted(st[0].value) if len(st) == 1 else None
+    a = shape(apps[0].args[0], kn or 'coordinates', vn or 'value')
     tg = gens[0].generators[0].target
     names = [dotted(e) for e in tg.elts] if isinstance(tg, ast.Tuple) else []
     r = shape(gens[0].elt, names[0], names[1]) if len(names) == 2 else '?'
